@@ -147,7 +147,7 @@ func sceneCtxMsg(op int, o ReqOpts) {
 	maxTotal, unbounded := s.MaxTotal, s.Unbounded
 	switch op {
 	case opPause:
-		chk("C09", vf.All(pre.Repeated, pre.State == types.RUNNING, post.State == types.PAUSED), "pause-only-repeated-running")
+		chk("C09 C10", vf.All(pre.Repeated, pre.State == types.RUNNING, post.State == types.PAUSED), "pause-only-repeated-running")
 		chk("C11 C10 C08 C02 C01 C12 C16", vf.All(k.HasRequestBatchExpiration(ctx, id) == hadExp, k.HasNewRequestBatch(ctx, id) == hadNew), "pause-keeps-queues")
 	case opStart:
 		chk("C09", vf.All(pre.State == types.PAUSED, post.State == types.RUNNING), "start-only-paused")
